@@ -256,6 +256,8 @@ def run(tier: str, replay: str | None = None):
     base_name, base_plan, base_out = results[0]
     base = dict(zip(base_plan, base_out["runs"]))
     differing = []  # (program, config, occurrence, diff)
+    known_hits = []
+    kf = lib.load_known_findings(PROP)["findings"]
     evaluations = 0
     for cname, plan, out in results:
         seen_count = {}
@@ -264,7 +266,12 @@ def run(tier: str, replay: str | None = None):
             occ = seen_count.get(pname, 0)
             seen_count[pname] = occ + 1
             if diags != base[pname]:
-                differing.append((pname, cname, occ, first_difference(base[pname], diags)))
+                fid = attribute_known(base[pname], diags, cfg_by_name[cname][3], kf)
+                if fid:
+                    rep.known(fid, next(f["what"] for f in kf if f["id"] == fid))
+                    known_hits.append((pname, cname))
+                else:
+                    differing.append((pname, cname, occ, first_difference(base[pname], diags)))
 
     # 4. model correspondence on the unit cases
     unit_fail_inputs, corr_mismatch = [], []
@@ -354,6 +361,7 @@ def run(tier: str, replay: str | None = None):
                             "unit_cases": {k: sum(1 for c in unit_cases if c[0] == k) for k in ("unite", "extra_kwargs", "or_constraint")}},
         sites_in_inventory=n_sites,
         differing_programs=len({d[0] for d in differing}),
+        known_finding_hits=len(known_hits),
         correspondence_mismatches=len(corr_mismatch),
         exhaustive=False,
     )
@@ -369,6 +377,32 @@ def run(tier: str, replay: str | None = None):
         ["Coq 8.16.1 kernel (coqc; vm_compute for the inventory obligations and model evaluation)", "translator harness/translate/sites.py",
          "audit table coq/theories/Det/Audit.v", "differential harness/c10.py + c10_worker.py", "CPython insertion-ordered dicts"],
     )
+
+
+def attribute_known(base, observed, shared_checker, findings):
+    """Known finding C10-protocol-positive-cache-key: with ONE Checker shared by several checks an
+    `incompatible_*` diagnostic that rests on a protocol member disappears (the positive cache of
+    the protocol's TypeObject is keyed by the source value only, so a success recorded for
+    Proto[A] is replayed for Proto[B]).  Attributed only if the configuration shares a Checker and
+    the observed diagnostics are exactly the reference minus such diagnostics -- what the keyed-memo
+    model predicts (C10_keyed_memo_needs_determining_key); anything else is a violation."""
+    ids = {f["id"] for f in findings}
+    if "C10-protocol-positive-cache-key" not in ids or not shared_checker:
+        return None
+    if not isinstance(base, list) or not isinstance(observed, list) or len(observed) >= len(base):
+        return None
+    removed, j = [], 0
+    for d in base:
+        if j < len(observed) and observed[j] == d:
+            j += 1
+        else:
+            removed.append(d)
+    if j != len(observed) or not removed:
+        return None
+    for d in removed:
+        if d[0] not in ("incompatible_argument", "incompatible_assignment", "incompatible_return_value") or "protocol member" not in d[3]:
+            return None
+    return "C10-protocol-positive-cache-key"
 
 
 def unclassified_sites_hint(gen_text):
